@@ -35,9 +35,17 @@ def tags_of(mask):
     return z3.Concat(one(mask % 2 == 1, 1), one((mask / 2) % 2 == 1, 2), one(mask / 4 == 1, 3))
 
 
+def now():
+    """index of the node being processed (the number of nodes once the loop is over, 0 before it)"""
+    return cur().ghost.get("loop_index", {}).get("nodes", z3.IntVal(0))
+
+
 class Cue(SymObject):
-    def __init__(self, state, blank, stack, bad, ntrail, base):
+    """`first`: index of the first node whose text is part of this cue text (ghost, for the layout clause)"""
+
+    def __init__(self, state, blank, stack, bad, ntrail, base, first=None):
         self.state, self.blank, self.stack, self.bad, self.ntrail, self.base = state, blank, stack, bad, ntrail, base
+        self.first = now() if first is None else first
 
     @staticmethod
     def of(x):
@@ -45,14 +53,14 @@ class Cue(SymObject):
             return x
         if isinstance(x, Pending):
             n = z3.Length(x.tags)
-            return Cue(z3.If(n > 0, INLINE, EMPTY), z3.BoolVal(False), x.tags, z3.BoolVal(False), n, z3.IntVal(EMPTY))
+            return Cue(z3.If(n > 0, INLINE, EMPTY), z3.BoolVal(False), x.tags, z3.BoolVal(False), n, z3.IntVal(EMPTY), now())
         if isinstance(x, str):
-            c = Cue(z3.IntVal(EMPTY), z3.BoolVal(False), E0, z3.BoolVal(False), z3.IntVal(0), z3.IntVal(EMPTY))
+            c = Cue(z3.IntVal(EMPTY), z3.BoolVal(False), E0, z3.BoolVal(False), z3.IntVal(0), z3.IntVal(EMPTY), now())
             return c if x == "" else c + x
         raise Inapplicable(f"cue text of {type(x).__name__}")
 
     def _text(self):
-        return Cue(z3.IntVal(INLINE), self.blank, self.stack, self.bad, z3.IntVal(0), z3.IntVal(INLINE))
+        return Cue(z3.IntVal(INLINE), self.blank, self.stack, self.bad, z3.IntVal(0), z3.IntVal(INLINE), self.first)
 
     def __add__(self, o):
         if isinstance(o, Piece):
@@ -61,18 +69,18 @@ class Cue(SymObject):
             if o in OPEN:
                 base = z3.If(self.ntrail == 0, self.state, self.base)
                 return Cue(z3.IntVal(INLINE), self.blank, z3.Concat(self.stack, z3.Unit(z3.IntVal(OPEN[o]))), self.bad,
-                           self.ntrail + 1, base)
+                           self.ntrail + 1, base, self.first)
             if o in CLOSE:
                 n = z3.Length(self.stack)
                 match = z3.And(n > 0, self.stack[n - 1] == CLOSE[o])
                 return Cue(z3.IntVal(INLINE), self.blank, z3.If(match, z3.SubSeq(self.stack, 0, n - 1), self.stack),
-                           z3.Or(self.bad, z3.Not(match)), z3.IntVal(0), z3.IntVal(INLINE))
+                           z3.Or(self.bad, z3.Not(match)), z3.IntVal(0), z3.IntVal(INLINE), self.first)
             if "<" in o:
                 raise Inapplicable(f"unknown markup {o!r} appended to a cue text")
             c = self
             for ch in o:
                 if ch == "\n":
-                    c = Cue(z3.IntVal(ATSTART), z3.Or(c.blank, c.state != INLINE), c.stack, c.bad, z3.IntVal(0), z3.IntVal(ATSTART))
+                    c = Cue(z3.IntVal(ATSTART), z3.Or(c.blank, c.state != INLINE), c.stack, c.bad, z3.IntVal(0), z3.IntVal(ATSTART), c.first)
                 else:
                     c = c._text()
             return c
@@ -107,7 +115,7 @@ class Cue(SymObject):
         cond = z3.And(z3.Length(pend.tags) == self.ntrail, self.ntrail >= 0, self.ntrail <= n,
                       pend.tags == z3.SubSeq(self.stack, n - self.ntrail, self.ntrail))
         p.require_then_assume("pending_tags_are_the_trailing_opening_tags", cond, kind="side")
-        return Cue(self.base, self.blank, z3.SubSeq(self.stack, 0, n - self.ntrail), self.bad, z3.IntVal(0), self.base)
+        return Cue(self.base, self.blank, z3.SubSeq(self.stack, 0, n - self.ntrail), self.bad, z3.IntVal(0), self.base, self.first)
 
 
 class AbsLen:
@@ -212,13 +220,25 @@ class Groups(SymObject):
     """the list of (cue text, layout) groups, abstracted to: every group appended so far was a
     non-empty text without a blank line (lines_ok) and with balanced, properly nested tags (tags_ok)"""
 
-    def __init__(self, lines_ok, tags_ok, count=None):
+    is_text_k = None       # set by the contract: (lo, hi) -> "node K is a text node with lo <= K < hi", and K's layout
+
+    def __init__(self, lines_ok, tags_ok, count=None, k_in=None, k_ok=None):
         self.lines_ok, self.tags_ok = lines_ok, tags_ok
         self.count = z3.IntVal(0) if count is None else count
+        # layout clause, for one arbitrary node index K: K's text is in a group appended so far / every appended
+        # group that holds K's text carries K's own layout
+        self.k_in = z3.BoolVal(False) if k_in is None else k_in
+        self.k_ok = z3.BoolVal(True) if k_ok is None else k_ok
 
     def append(self, item):
         s = Cue.of(item[0])
         self.count = self.count + 1
+        if Groups.is_text_k is not None:
+            lay = item[1]
+            lay_t = lay.t if isinstance(lay, OptLayout) else z3.IntVal(heap.NONE_REF)
+            holds_k, lay_k = Groups.is_text_k(s.first, now())
+            self.k_in = z3.Or(self.k_in, holds_k)
+            self.k_ok = z3.And(self.k_ok, z3.Implies(holds_k, lay_k == lay_t))
         self.lines_ok = z3.And(self.lines_ok, z3.Not(s.blank), s.state != EMPTY)
         self.tags_ok = z3.And(self.tags_ok, z3.Not(s.bad), s.stack == E0)
 
@@ -251,6 +271,9 @@ def cue_groups(c):
         HASTEXT = z3.Function("HASTEXT", INT, z3.BoolSort())         # a text node among the first k nodes
         p.assume(z3.And(FLAT(0) == 0, CUR(0) == heap.NONE_REF, z3.Not(HASTEXT(0))))
         node = lambda k: nodes.t[k]
+        K = z3.Int("any_text_node")
+        text_k = z3.And(0 <= K, K < n, TY[nodes.t[K]] == CaptionNode.TEXT)
+        Groups.is_text_k = staticmethod(lambda lo, hi: (z3.And(text_k, lo <= K, K < hi), LAY[nodes.t[K]]))
         is_start = lambda k: z3.And(TY[node(k)] == STYLE, ST[node(k)])
         is_end = lambda k: z3.And(TY[node(k)] == STYLE, z3.Not(ST[node(k)]))
 
@@ -281,6 +304,7 @@ def cue_groups(c):
             g = S.local("layout_groups")
             g_lines, g_tags = (g.lines_ok, g.tags_ok) if isinstance(g, Groups) else (z3.BoolVal(True), z3.BoolVal(True))
             g_count = g.count if isinstance(g, Groups) else z3.IntVal(0)
+            g_in, g_ok = (g.k_in, g.k_ok) if isinstance(g, Groups) else (z3.BoolVal(False), z3.BoolVal(True))
             cl = S.local("current_layout")
             cl_t = cl.t if isinstance(cl, OptLayout) else z3.IntVal(heap.NONE_REF)
             prev_is_text = z3.And(i > 0, TY[node(i - 1)] == TEXT)
@@ -292,20 +316,27 @@ def cue_groups(c):
                     ("pending_tags_are_the_trailing_tags", z3.And(z3.Length(pend.tags) == s.ntrail, s.ntrail >= 0, s.ntrail <= ns,
                                                                   pend.tags == z3.SubSeq(s.stack, ns - s.ntrail, s.ntrail))),
                     ("current_layout_is_that_of_the_last_text", cl_t == CUR(i)),
-                    ("has_text_is_a_text_node_so_far", sym.zbool(S.local("has_text")) == HASTEXT(i)),
+                    ("has_text_is_a_text_node_so_far", (sym.zbool(S.local("has_text")) == HASTEXT(i)) if S.local("has_text") is not None else z3.BoolVal(True)),
                     ("text_before_the_trailing_tags_once_a_text_was_written", z3.Implies(HASTEXT(i), z3.And(s.base != EMPTY, s.state != EMPTY))),
                     ("open_tags_are_those_of_the_open_span", z3.And(z3.Not(s.bad), g_tags,
                                                                     s.stack == z3.If(FLAT(i) == 1, tags_of(M(i)), E0))),
                     ("right_after_a_span_start_all_its_tags_are_trailing", z3.Implies(z3.And(i > 0, is_start(i - 1)), s.ntrail == ns)),
-                    ("base_is_the_state_without_trailing_tags", z3.Implies(s.ntrail == 0, s.base == s.state))]
+                    ("base_is_the_state_without_trailing_tags", z3.Implies(s.ntrail == 0, s.base == s.state)),
+                    # layout clause (C12), for an arbitrary text node K
+                    ("open_cue_starts_at_a_node_seen", z3.And(s.first >= 0, s.first <= i)),
+                    ("a_text_node_seen_sets_has_text", z3.Implies(z3.And(text_k, K < i), HASTEXT(i))),
+                    ("texts_of_the_open_cue_have_the_current_layout", z3.Implies(z3.And(text_k, s.first <= K, K < i), LAY[node(K)] == cl_t)),
+                    ("a_text_seen_is_in_the_open_cue_or_in_a_group", z3.Implies(z3.And(text_k, K < i), z3.Or(s.first <= K, g_in))),
+                    ("groups_holding_the_text_carry_its_layout", g_ok)]
 
         def fresh_cue(p_, v):
             return Cue(p_.fresh_int("state"), p_.fresh_bool("blank"), z3.Const(p_._name("stack"), SEQ), p_.fresh_bool("bad"),
-                       p_.fresh_int("ntrail"), p_.fresh_int("base"))
+                       p_.fresh_int("ntrail"), p_.fresh_int("base"), p_.fresh_int("first"))
         c.interp.loop_hooks[(q, 1)] = loop_rule(
             "nodes", inv, locals_={"s": ("custom", fresh_cue),
                                    "pending_tags": ("custom", lambda p_, v: Pending(z3.Const(p_._name("pending"), SEQ))),
-                                   "layout_groups": ("custom", lambda p_, v: Groups(p_.fresh_bool("lines_ok"), p_.fresh_bool("tags_ok"), p_.fresh_int("groups"))),
+                                   "layout_groups": ("custom", lambda p_, v: Groups(p_.fresh_bool("lines_ok"), p_.fresh_bool("tags_ok"), p_.fresh_int("groups"),
+                                                                                        p_.fresh_bool("k_in"), p_.fresh_bool("k_ok"))),
                                    "current_layout": ("custom", lambda p_, v: OptLayout(p_.fresh_int("layout"))),
                                    "has_text": ("bool", None),
                                    "resulting_style": ("skip", None), "styles": ("skip", None), "style": ("skip", None),
@@ -329,10 +360,15 @@ def cue_groups(c):
             c.ensure("every_cue_text_has_balanced_properly_nested_tags", z3.Implies(FLAT(n) == 0, r.tags_ok))
             p.assume(z3.Implies(n == 0, z3.Not(HASTEXT(n))))
             c.ensure("a_caption_with_a_text_node_yields_at_least_one_cue", z3.Implies(HASTEXT(n), r.count >= 1))
+            # C12: nodes of one caption with different layouts become separate cues - every text node's text is in a
+            # cue group, and every group that holds it carries the node's own layout_info (None: the caption's)
+            c.ensure("every_text_node_is_in_a_cue_group", z3.Implies(text_k, r.k_in))
+            c.ensure("a_cue_group_carries_the_layout_of_each_of_its_text_nodes", z3.Implies(text_k, r.k_ok))
         else:
             c.ensure("every_cue_text_is_non_empty_and_has_no_blank_line", len(r) == 0)
             c.ensure("every_cue_text_has_balanced_properly_nested_tags", len(r) == 0)
     finally:
+        Groups.is_text_k = None
         heap.SCHEMAS.clear()
         heap.SCHEMAS.update(saved)
         heap.CUSTOM_KINDS.clear()
